@@ -31,7 +31,7 @@ func Assumptions(prop string) []string {
 
 // RunPlan executes the searches in order until the soft deadline and writes the evidence.
 func RunPlan(r *mc.Run, prop string, plan []Search) {
-	pool := mc.NewProcPool(0)
+	pool := NewWorkerPool(0)
 	var rows []map[string]any
 	union := map[string]map[string]bool{} // world -> distinct state keys over all searches
 	var transitions int64
@@ -50,7 +50,9 @@ func RunPlan(r *mc.Run, prop string, plan []Search) {
 		u := union[s.World]
 		var infoSamples []string
 		st := mc.ReplayBFS(mc.BFSConfig{
-			Tag: job.Tag(), NumOps: len(alpha), MaxDepth: s.Depth, Pool: pool, OnViol: r.OnViol, Stop: r.Expired,
+			Tag: job.Tag(), NumOps: len(alpha), MaxDepth: s.Depth, OnViol: r.OnViol, Stop: r.Expired,
+			// every path runs in a worker process (one chain per process); the pool outlives the BFS levels
+			Workers: pool.N, Exec: func(path []int) mc.ExecResult { return pool.Exec(job.Tag(), path) },
 			// a recipe that needs a certificate no honest committee would sign (separate signature class) is
 			// explored as the last or second-to-last block of a path only, so that its class does not
 			// spread over the rest of the search
@@ -118,6 +120,10 @@ func RunPlan(r *mc.Run, prop string, plan []Search) {
 		"oracle":                    oracleText(prop),
 		"not_covered":               notCovered,
 	}
+	if pool.Crashes > 0 {
+		cov["worker_crashes"] = pool.Crashes
+	}
+	pool.Close()
 	r.Finish(cov)
 }
 
